@@ -17,7 +17,8 @@ RULE = ('programs = model syntax trees of the dialect drawn from picotool\'s own
         'statement node spans exactly its model tokens. Non-trivial = >= 3 statements or nesting >= 2 or a '
         'short-if; distinct by source text.'
         ' A quarter of the programs are additionally parsed by a Parser object that parsed three other programs before (process_tokens is documented as repeatable), another quarter by one Lua object fed the source in pieces through successive update_from_lines calls (cut after line ends at top-level statement boundaries).'
-        ' The warm-up programs of the reused parser include programs the parser rejects (error inside a short-if, a call, a block). LUAGEN strings include literals whose content is spelled like a keyword or symbol ("nil", "(", "[").')
+        ' The warm-up programs of the reused parser include programs the parser rejects (error inside a short-if, a call, a block). LUAGEN strings include literals whose content is spelled like a keyword or symbol ("nil", "(", "[").'
+        ' Part "long": flat programs of 100-500 statements (calls without arguments, empty tables, bare returns, local declarations).')
 ASSUMPTIONS = ['the dialect is the grammar in pico8/lua/parser.py docstrings + README PICO-8 forms; programs outside '
                'it are not generated here', 'operator precedence/associativity is not compared (parser TODO says it '
                'is not modelled; the property promises source order)',
